@@ -280,11 +280,7 @@ find_status_word(void)
 {
         if (st_word)
                 return;
-        __real_asm_set_self_tests_status(0x5A17E57);
-        for (uint8_t *p = __start_isal_data; p + 4 <= __stop_isal_data; p += 4)
-                if (*(volatile int *) p == 0x5A17E57)
-                        st_word = (volatile int *) p;
-        __real_asm_set_self_tests_status(2);
+        st_word = find_self_test_word(__real_asm_set_self_tests_status);
         if (!st_word)
                 die("self_test_status not found");
 }
@@ -315,7 +311,7 @@ do_selfrun(const cmd *c)
         res_sha = (int) cmd_i(c, 4);
         entry_kind = c->t[5][0];
         find_status_word();
-        __real_asm_set_self_tests_status(2);
+        *st_word = 2; /* SELF_TEST_NOT_DONE */
         struct sigaction sa;
         memset(&sa, 0, sizeof sa);
         sa.sa_sigaction = on_trap;
@@ -395,7 +391,7 @@ do_selfstall(const cmd *c)
         res_sha2 = c->n > 7 ? (int) cmd_i(c, 7) : res_sha;
         ncalls = 2; /* the second call of every thread comes after its first returned: "later calls return the verdict" */
         find_status_word();
-        __real_asm_set_self_tests_status(2);
+        *st_word = 2; /* SELF_TEST_NOT_DONE */
         sem_init(&inside, 0, 0);
         aes_entries = 0;
         ev_begin("SReset");
